@@ -20,6 +20,7 @@
 #include <foonathan/memory/memory_stack.hpp>
 #include <foonathan/memory/segregator.hpp>
 #include <foonathan/memory/smart_ptr.hpp>
+#include <foonathan/memory/std_allocator.hpp>
 #include <functional>
 #include <foonathan/memory/tracking.hpp>
 
@@ -337,6 +338,17 @@ namespace
             p       = sp->get();
             cnt     = n;
             rel     = [sp] { sp->reset(); };
+            return true;
+        }
+        if (kind == "sa")
+        {
+            // std_allocator used directly: allocate(n) is a node for n == 1 and an array otherwise, and
+            // deallocate(p, n) has to repeat that decision
+            auto sa = std::make_shared<fm::std_allocator<T, A>>(a);
+            T*   q  = sa->allocate(n);
+            p       = q;
+            cnt     = n;
+            rel     = [sa, q, n] { sa->deallocate(q, n); };
             return true;
         }
         if (kind == "sh")
@@ -822,7 +834,7 @@ namespace
                 Ev("fill").i("L", cmd.arg(0)).i("cap", cmd.arg(1));
                 continue;
             }
-            if (op == "uq" || op == "ua" || op == "sh" || op == "ub")
+            if (op == "uq" || op == "ua" || op == "sh" || op == "ub" || op == "sa")
             {
                 int         cls = static_cast<int>(cmd.arg(0));
                 std::size_t n   = static_cast<std::size_t>(cmd.arg(1, 3));
@@ -831,7 +843,8 @@ namespace
                 std::size_t cnt = 1, sz = 0, al = 1;
                 std::function<void()> rel;
                 // the request as the helper must make it is only known after the call: log it with the ret
-                Ev("call").i("id", id).s("op", op == "ua" ? "aa" : "an").u("n", 0).u("sz", 0).u("al", 0).i("h", 0);
+                bool as_array = op == "ua" || (op == "sa" && n != 1);
+                Ev("call").i("id", id).s("op", as_array ? "aa" : "an").u("n", 0).u("sz", 0).u("al", 0).i("h", 0);
                 bool        did = false;
                 std::string r   = classify([&] { did = c.smart(op, cls, n, p, cnt, sz, al, rel); });
                 if (r == "ok" && !did)
@@ -842,7 +855,7 @@ namespace
                 {
                     world().project(p, blk, off);
                     h = ++next_id;
-                    smart_live.push_back(SmartHandle{h, rel, op == "ua", cnt, sz, al});
+                    smart_live.push_back(SmartHandle{h, rel, as_array, cnt, sz, al});
                 }
                 Ev("sret").i("id", id).s("r", r).i("h", h).i("b", blk).i("off", off).u("n", cnt).u("sz", sz).u("al", al).u(
                     "mis", p && al ? reinterpret_cast<std::uintptr_t>(p) % al : 0);
